@@ -640,6 +640,7 @@ def prior_task():
 
 def main():
     prior_task()
+    hlib.prior_tasks()
     p = hlib.payload()
     if p and 'replay' in p:
         hlib.emit(replay(p['replay']))
